@@ -102,7 +102,7 @@ def gen_case(rng, m, tier):
 
 
 def make_cases(seed, tier):
-    per = 95 if tier == "quick" else 1300
+    per = 95 if tier == "quick" else 3200
     cases = []
     for m in gen.METHODS:
         tsec = 0.0
